@@ -27,6 +27,8 @@ func main() {
 		runConc(os.Args[2:])
 	case "raftsim":
 		runRaftsim(os.Args[2:])
+	case "facts":
+		runFacts(os.Args[2:])
 	case "apply":
 		runApply(os.Args[2:])
 	default:
